@@ -1,6 +1,6 @@
 (* C08 - the dependency graph is exactly the declared one, and acyclic.  Statements only. *)
 From Coq Require Import String Ascii List Bool Arith ZArith.
-From TC Require Import PyStr Value Dict Repr Param Names Config Key Chain Graph World GraphProofs ChainProofs.
+From TC Require Import PyStr Value Dict Repr Param Names Config Key Chain Graph World GraphProofs ChainProofs ChainTasksProofs.
 Import ListNotations.
 
 (* a config contributes exactly its listed, non-abstract, non-excluded classes, under its namespace *)
@@ -13,6 +13,14 @@ Theorem C08_tasks_exact : forall classes imports ci c tasks tasks' excluded list
    exists k tc, In k listed /\ eligible classes excluded k tc /\ x = full_name (c_slug tc) (cf_ns c)).
 Proof. exact config_tasks_exact. Qed.
 Print Assumptions C08_tasks_exact.
+
+(* the whole chain: a task is in it exactly when some config of the chain contributes it - lists its class, which is
+   not abstract and not excluded *by that config*; what one config excludes has no bearing on the others *)
+Theorem C08_chain_tasks_exact : forall classes imports cs ci tasks tasks' x,
+  create_tasks classes imports ci cs tasks = inl tasks' ->
+  (In x (map fst tasks') <-> In x (map fst tasks) \/ exists n c, In (n, c) cs /\ contributes classes imports c x).
+Proof. exact chain_tasks_exact. Qed.
+Print Assumptions C08_chain_tasks_exact.
 
 (* every input is resolved inside the declaring task's own namespace *)
 Theorem C08_resolved_in_own_namespace : forall q names f,
